@@ -89,6 +89,7 @@ func (r *recorder) stub(mt string) minify.MinifierFunc {
 
 type host struct {
 	via      string // media type of an intermediate real minifier that must be registered too (html > svg > style)
+	direct   bool   // the host minifier is called directly, not through the registry (the resource has the host's own media type)
 	name     string
 	hostType string
 	build    func(payload string) string
@@ -283,6 +284,8 @@ func cssURL(out string) (string, bool) {
 	if len(v) >= 2 && (v[0] == '"' || v[0] == '\'') && v[len(v)-1] == v[0] {
 		v = v[1 : len(v)-1]
 		v = strings.NewReplacer(`\"`, `"`, `\'`, `'`, `\\`, `\`).Replace(v)
+	} else if strings.ContainsAny(v, "\"'() \t\n") {
+		return "", false // an unquoted url() may not contain quotes, parentheses or white space (CSS Syntax: bad-url token)
 	}
 	return v, true
 }
@@ -355,6 +358,18 @@ var hosts = []host{
 	{name: "svg style element", hostType: "image/svg+xml", build: func(p string) string { return "<svg><style>" + xmlTextEscape(p) + "</style><g/></svg>" }, wantType: "text/css", pre: strings.TrimSpace, extract: svgStyleText},
 	{name: "svg style CDATA", hostType: "image/svg+xml", build: func(p string) string { return "<svg><style><![CDATA[" + p + "]]></style><g/></svg>" }, wantType: "text/css", pre: ident, extract: svgStyleText},
 	{name: "svg style= attribute", hostType: "image/svg+xml", build: func(p string) string { return "<svg><g style=\"" + xmlAttrEscape(p) + "\"/></svg>" }, wantType: "text/css", wantParams: "inline=1;", pre: xmlAttrNorm, extract: svgAttr("g", "style"), attr: true},
+	{name: "css unquoted url(data:image/svg+xml)", hostType: "text/css", build: func(p string) string { return "a{b:url(data:image/svg+xml," + pctEncode(p+pad) + ")}" }, wantType: "image/svg+xml", pre: func(p string) string { return p + pad }, dataURI: true, extract: dataURIPayload(cssURL), attr: true},
+	{name: "html style= with unquoted url(data:image/svg+xml)", hostType: "text/html", via: "text/css", build: func(p string) string {
+		return "<p style=\"b:url(data:image/svg+xml," + pctEncode(p+pad) + ")\">x</p>"
+	}, wantType: "image/svg+xml", pre: func(p string) string { return p + pad }, dataURI: true, extract: dataURIPayload(func(out string) (string, bool) {
+		v, ok := htmlAttr("p", "style")(out)
+		if !ok {
+			return "", false
+		}
+		return cssURL(v)
+	}), attr: true},
+	// the content of an iframe is a document of its own, dispatched as text/html
+	{name: "html iframe content", hostType: "text/html", direct: true, build: func(p string) string { return "<iframe src=x>" + p + "</iframe>" }, wantType: "text/html", pre: ident, extract: htmlElemText("iframe"), rawText: true},
 	{name: "css url(data:image/svg+xml)", hostType: "text/css", build: func(p string) string { return "a{b:url(\"data:image/svg+xml," + pctEncode(p+pad) + "\")}" }, wantType: "image/svg+xml", pre: func(p string) string { return p + pad }, dataURI: true, extract: dataURIPayload(cssURL), attr: true},
 }
 
@@ -386,7 +401,7 @@ func b64(s string) string {
 }
 
 var payloads = []string{"a", "a b", " a ", "a{b:c}", "x=1", "a  b", "a\nb", "a'b", "a\"b", "a&b", "a<b", "a>b", "]]>", "a&amp;b", "a%20b", "</b>", "<!--a-->", "a;b", "a{color : red }", "var  x = 1 ;", "{\"a\" : 1 }", "a+b", "a,b", "é", "a\tb", "'", "\"", "\"'", "a=\"b\"", "url(x)"}
-var nasties = []string{"\"", "'", "a b", "<", "&amp;", ">", "a\"b'c", "]]>", "&", " x ", "a=b", "`", "\"\"''"}
+var nasties = []string{"\"", "'", "a b", "<", "&amp;", ">", "a\"b'c", "]]>", "&", " x ", "a=b", "`", "\"\"''", "f(x)", ")", "it's(", "\\"}
 
 // CheckOne runs one (host, payload, registry mode) case.
 func CheckOne(h host, payload, mode string) (kind, what, out string) {
@@ -400,7 +415,9 @@ func CheckOne(h host, payload, mode string) (kind, what, out string) {
 	m := minify.New()
 	switch h.hostType {
 	case "text/html":
-		m.Add("text/html", &html.Minifier{})
+		if !h.direct {
+			m.Add("text/html", &html.Minifier{})
+		}
 	case "image/svg+xml":
 		m.Add("image/svg+xml", &svg.Minifier{})
 	case "text/css":
@@ -408,6 +425,9 @@ func CheckOne(h host, payload, mode string) (kind, what, out string) {
 	}
 	if h.via == "image/svg+xml" {
 		m.Add("image/svg+xml", &svg.Minifier{})
+	}
+	if h.via == "text/css" {
+		m.Add("text/css", &css.Minifier{})
 	}
 	stubbed := mode != "unregistered" && mode != "real"
 	if stubbed {
@@ -428,7 +448,18 @@ func CheckOne(h host, payload, mode string) (kind, what, out string) {
 	doc := h.build(payload)
 	var res []byte
 	var err error
-	if p := core.Recover(func() { res, err = m.Bytes(h.hostType, []byte(doc)) }); p != "" {
+	call := func() { res, err = m.Bytes(h.hostType, []byte(doc)) }
+	if h.direct {
+		call = func() {
+			var b bytes.Buffer
+			err = (&html.Minifier{}).Minify(m, &b, strings.NewReader(doc), nil)
+			res = b.Bytes()
+			if err != nil {
+				res = []byte(doc)
+			}
+		}
+	}
+	if p := core.Recover(call); p != "" {
 		return "panic", p, ""
 	}
 	out = string(res)
